@@ -2147,13 +2147,28 @@ class FortranFile:
         return None
 
 
+def _pp_div(a, b):
+    """Division of a C preprocessor: integers divide with truncation towards zero"""
+    if isinstance(a, int) and isinstance(b, int):
+        quotient = abs(a) // abs(b)
+        return quotient if (a < 0) == (b < 0) else -quotient
+    return a / b
+
+
+def _pp_mod(a, b):
+    """Remainder of a C preprocessor: the sign follows the dividend"""
+    if isinstance(a, int) and isinstance(b, int):
+        return a - b * _pp_div(a, b)
+    return a % b
+
+
 _PP_BIN_OPS = {
     ast.Add: operator.add,
     ast.Sub: operator.sub,
     ast.Mult: operator.mul,
-    ast.Div: operator.truediv,
+    ast.Div: _pp_div,
     ast.FloorDiv: operator.floordiv,
-    ast.Mod: operator.mod,
+    ast.Mod: _pp_mod,
     ast.BitOr: operator.or_,
     ast.BitAnd: operator.and_,
     ast.BitXor: operator.xor,
@@ -2184,14 +2199,15 @@ def eval_pp_expr(expr: str):
         ):
             return node.value
         if isinstance(node, ast.BoolOp):
-            res = ev(node.values[0])
+            # && and || yield 0 or 1, not one of their operands
+            res = bool(ev(node.values[0]))
             for value in node.values[1:]:
                 if isinstance(node.op, ast.And):
                     if not res:
-                        return res
+                        return False
                 elif res:
-                    return res
-                res = ev(value)
+                    return True
+                res = bool(ev(value))
             return res
         if isinstance(node, ast.UnaryOp):
             val = ev(node.operand)
@@ -2383,7 +2399,7 @@ def preprocess_file(
             def_name = None
             if_start = False
             # Opening conditional statements
-            if match.group(1).lower() == "if ":
+            if match.group(1).lower() == "if":
                 is_path = eval_pp_if(line[match.end(1) :], defs_tmp)
                 if_start = True
             elif match.group(1).lower() == "ifdef":
